@@ -132,6 +132,28 @@ check("C18", "exploration", "gsched",
       "Trusted: vlib/bench.py, vlib/gtbench.py, wall-clock bounds in the real runs; four known findings (gthread abandons a just-accepted connection at recycle - seen in simulation and on real servers; gevent/eventlet keep accepting for up to a second after the limit) are listed.",
       "DESIGN.md section 3, C18")
 
+# coverage added after the third and fourth wave of seeded defects (DESIGN.md section 0)
+ADDENDA = {
+    "C01": " Seed streams are additionally cut at every offset (1 cut; thorough 2) and read with 9 read()/readline() programs, always judged by the same whole-stream reference.",
+    "C02": " Real sync/gthread/gevent/eventlet servers additionally run 8 connection scripts (request sequences ending in file_wrapper / multi-megabyte responses with a slow reader, responses slower than the keep-alive time, HTTP/1.0 keep-alive), read back by the same strict reader.",
+    "C03": " The simulated heartbeat file delegates its open/closed life cycle to the real WorkerTmp.",
+    "C04": " Reload histories that change graceful_timeout (the arbiter's own configuration in force is the bound) and real cells with workers older than graceful_timeout are included.",
+    "C05": " Also: IPv6 peers (4-tuples), a client that stays connected and silent (the async keep-alive timer fires), and clients that never read a multi-megabyte echoed error reply (limit_request_line=0).",
+    "C08": " Also: a PROXY line combined with proxy-asserting headers x forwarded_allow_ips naming the declared address / the peer; field names with other token characters; the cells re-run in fresh interpreters with FORWARDED_ALLOW_IPS set in the environment.",
+    "C09": " Also: late start_response(.., exc_info) after a zero-byte write / yield with a payload that would read as a second response.",
+    "C10": " Also: a raw_env variable set, changed by a first reload and dropped by a second one.",
+    "C11": " The worker's wait bound is taken from the real Arbiter.setup()/spawn_worker(); clients pending on several listeners at once; a master woken every 0.3-0.9 s (USR1, crash-looping sibling, TTIN/TTOU) while a worker hangs; gaps are measured from worker creation.",
+    "C12": " 'What follows' includes 8.7 KB of pipelined requests arriving in the same read as the head under test.",
+    "C14": " Also: three listeners (tcp, tcp, unix) handed over through upgrade / rollback / chained upgrade, and the exec environment must carry everything the old master was started with.",
+    "C15": " A forwarder header (PATH_INFO) is one of the field items, in every order with the underscore-named items.",
+    "C16": " Also: wrong-typed values per validator, case / underscore variants of every setting name as plain file variables, wsgi_app named by the file, six spellings of -c (absolute, relative, file: prefix) x four directory names, reloads after the configuration moved the working directory.",
+    "C17": " Foreign file contents include pids that are prefixes of one another (1, 11, 110); the arbiter's halt call site is judged too (the pid file may only go when no worker is left).",
+    "C19": " Includes a delivery where a late start_response(.., exc_info) is refused after the first write.",
+    "C20": " The credential grid is crossed with the identity the master starts with (root/0, configured gid preset, effective gid preset, own supplementary groups) and records the arguments of os.initgroups; a USR2 history with the identity configured through GUNICORN_CMD_ARGS is included.",
+}
+for pid, extra in ADDENDA.items():
+    CHECKS[pid]["text"] += extra
+
 ALL = ["C%02d" % i for i in range(1, 21)]
 for pid in ALL:
     if pid not in CHECKS:
